@@ -6,7 +6,7 @@ import sys, os, re, json, hashlib, subprocess, tempfile, shutil, time, concurren
 
 HERE = os.path.dirname(os.path.abspath(__file__))
 sys.path.insert(0, HERE)
-from rustlex import mask, find_items, line_of, all_fns, match_close, body_open  # noqa
+from rustlex import mask, find_items, line_of, all_fns, match_close, body_open, attrs_start  # noqa
 from splice import FnSpec, splice_fn, LostAnchor, mark, apply_insertions  # noqa
 import inline as inl  # noqa
 
@@ -376,6 +376,29 @@ class Unit:
                 if c == 0:
                     raise LostAnchor('wrap_chain: no .%s found' % '().'.join(a_[1].split(',')))
                 t = dict(rule='T16', what='RECV.%s(..) -> crate::%s(RECV, ..): trusted wrapper whose body is that same call' % ('(..).'.join(a_[1].split(',')), a_[0]), count=c, item=rec.get('item'))
+                rec['transformations'].append(t)
+                self.transforms.append(t)
+            elif cmd == 'only':
+                # only f1,f2  -- T-DROP: every other fn of the extracted impl block is removed (not verified, not callable)
+                keepf = [x.strip() for x in arg.split(',')]
+                mk = mask(text)
+                spans = [(n_, s0, e_) for (n_, s0, k_, e_, ind_) in inl.fn_spans(text, mk)]
+                present = [n_ for n_, _, _ in spans]
+                for kf in keepf:
+                    if kf not in present:
+                        raise LostAnchor('only: fn %s not found in extracted item' % kf)
+                droppedf = []
+                for n_, s0, e_ in sorted(spans, key=lambda x: -x[1]):
+                    if n_ in keepf:
+                        continue
+                    # nested fns inside a kept fn stay
+                    if any(n2 in keepf and s2 < s0 and e_ <= e2 for n2, s2, e2 in spans):
+                        continue
+                    ls = attrs_start(text, mk, s0)
+                    text = text[:ls] + '/* vx:T-DROP fn %s dropped (outside this unit) */' % n_ + text[e_:]
+                    mk = mask(text)
+                    droppedf.append(n_)
+                t = dict(rule='T-DROP', what='fns dropped from extracted impl: ' + ','.join(reversed(droppedf)), item=rec.get('item'))
                 rec['transformations'].append(t)
                 self.transforms.append(t)
             elif cmd == 'pub':
